@@ -294,6 +294,16 @@ static void explore(const MTab &T, const char *side, const Args &args)
                     cy.push_back({(ah << 32) | 0xFFFFFFFEULL, b});
                     cy.push_back({((ah + 1) << 32) | 0xFFFFFFFFULL, b});
                 }
+            // ... and products that straddle a multiple of 2^64 (the point where the high byte of the 72-bit product changes):
+            // a = ceil(m*2^64/b) + j and floor(m*2^64/b) - j for m in {1, b/2, b-1}, j in {0,1,2}
+            for (u64 b = 2; b < 256; b++)
+                for (u64 m : {(u64)1, b / 2, b - 1})
+                {
+                    if (m == 0) continue;
+                    u128 t = ((u128)m << 64);
+                    u64 fl = (u64)(t / b), ce = (u64)((t + b - 1) / b);
+                    for (u64 j = 0; j < 3; j++) { cy.push_back({ce + j, b}); cy.push_back({fl - j, b}); }
+                }
             const int cl = coef_len(e.kind);
             for (size_t g = 0; g < cy.size(); g++)
             {
